@@ -16,9 +16,12 @@ mkdir -p "$W/verif"
 rsync -a --delete --exclude target --exclude .git --exclude replays --exclude evidence "${MUTATE_SRC:-/verif}/" "$W/verif/" || exit 2
 sed -i "s#\"/repo/#\"$W/repo/#g" "$W/verif/harness/Cargo.toml"
 sed -i "s#/verif/target#$W/verif/target#" "$W/verif/harness/.cargo/config.toml"
-git -C "$W/repo" checkout -q -- . ; git -C "$W/repo" clean -fdq -e target
+git -C "$W/repo" reset -q --hard ; git -C "$W/repo" clean -fdq -e target
+# the scratch repository follows /repo's HEAD, unless a frozen harness copy pins the commit it was measured against
+base=$(cat "${MUTATE_SRC:-/verif}/BASE" 2>/dev/null || git -C /repo rev-parse HEAD)
+git -C "$W/repo" checkout -q --detach "$base" || exit 2
 if [ "$patch" != "none" ]; then
-  git -C "$W/repo" apply "$patch" || { echo "patch does not apply: $patch"; exit 2; }
+  git -C "$W/repo" apply "$patch" 2>/dev/null || git -C "$W/repo" apply -3 "$patch" 2>/dev/null || { echo "patch does not apply: $patch"; exit 2; }
 fi
 export AGV_VERIF="$W/verif" AGV_REPO="$W/repo"
 for id in "$@"; do
@@ -27,4 +30,4 @@ for id in "$@"; do
   [ $rc -eq 2 ] && kind=$(echo "$out" | grep -m1 -E "INCONCLUSIVE|BUILD-ERROR|HARNESS-ERROR")
   echo "$(basename "$patch") $id exit=$rc ${kind}"
 done
-git -C "$W/repo" checkout -q -- . ; git -C "$W/repo" clean -fdq -e target
+git -C "$W/repo" reset -q --hard ; git -C "$W/repo" clean -fdq -e target
